@@ -309,6 +309,12 @@ func (ex *Exec) frameObligations(c *Contract, h0, hf *Heap, guard, a0 Term) {
 			if e.arrField > 0 {
 				bt = arrBase(bt, e.arrField-1)
 			}
+			if e.viaKey != "" {
+				bt = sel(q.heapGet(h0, e.viaKey), bt)
+			}
+			if bt.Sort == sSlice {
+				bt = slBase(bt)
+			}
 			allowed[e.key] = append(allowed[e.key], bt)
 		} else {
 			wholeOK[e.key] = true
